@@ -45,7 +45,7 @@ def main():
     ts = [threading.Thread(target=worker, args=(i,)) for i in range(lanes)]
     [t.start() for t in ts]; [t.join() for t in ts]
     _, head = sh("git log --format=%h -1", cwd="/verif"); _, rh = sh("git log --format=%h -1", cwd="/repo")
-    with open("/verif/seeded/RERUN.md", "w") as f:
+    with open(os.environ.get("RERUN_OUT", "/verif/seeded/RERUN.md" if len(sys.argv) <= 2 else "/verif/seeded/RERUN-partial.md"), "w") as f:
         f.write(f"# Re-run of all kept seeded changes against the checks as committed ({head.strip()}, /repo {rh.strip()}), in scratch lanes\n\n| seed | property | quick check | seconds | first line |\n|---|---|---|---|---|\n")
         for n in names:
             p, r, dt, first = res.get(n, ("?", "not run", 0, ""))
